@@ -12,6 +12,7 @@ var All = map[string]*fw.Prop{
 	"C06": C06,
 	"C08": C08,
 	"C09": C09,
+	"C10": C10,
 	"C11": C11,
 	"C12": C12,
 	"C13": C13,
@@ -24,4 +25,4 @@ var All = map[string]*fw.Prop{
 }
 
 // StopServers ends the server subprocesses the socket-level checks started.
-func StopServers() { sysStopAll(); attStopAll() }
+func StopServers() { sysStopAll(); attStopAll(); c10StopAll() }
